@@ -306,6 +306,21 @@ func genHistory(c *core.Chooser, prop string, tid int, maxOps int) []hop {
 			o.coding = c.Intn(12) // which codec entry point
 			fam := []family{famASCII, famASCII, famLatin1, famUCS2, famGBK, famGSM7U}[c.Intn(6)]
 			o.text = genSMSText(c, fam, 1+c.Intn(90), nil2run)
+			if c.Prob(1, 4) {
+				// long and dense in multi-unit characters: outgrows size estimates made per character
+				sp := multiUnit[fam]
+				if len(sp) == 0 {
+					sp = multiUnit[famUCS2]
+				}
+				var sb strings.Builder
+				for i, n := 0, 40+c.Intn(160); i < n; i++ {
+					sb.WriteString(sp[c.Intn(len(sp))])
+					if c.Prob(1, 4) {
+						sb.WriteByte('a')
+					}
+				}
+				o.text = sb.String()
+			}
 		case 14:
 			o.smpp = c.Bool()
 			o.coding = c.Intn(1 << 20) // sub-seed for tags and values
@@ -330,7 +345,7 @@ func genHistory(c *core.Chooser, prop string, tid int, maxOps int) []hop {
 				o.ref = byte(c.Intn(2)) // under a blocking reader: keep the frame (1) or the decoded value (0)
 			}
 			pd := proto.PDUs[c.Intn(len(proto.PDUs))]
-			opt := spec.GenOpt{MaxDests: 2, MaxBody32: 120, BinNoNul: true}
+			opt := spec.GenOpt{MaxDests: 2, MaxBody32: 120, BinNoNul: true, BigTLV: c.Prob(1, 5)}
 			if o.kind == 2 {
 				opt.NoTail = true // String() of optional parameters iterates a Go map
 			}
